@@ -150,9 +150,19 @@ def _ctor_params_reach_state(idx: ProgramIndex, cls: ClassInfo, init: FuncInfo) 
                 if n.value is c and any(chain(t) and chain(t).startswith("self.") for t in n.targets):
                     sinks.extend(c.args)
                     sinks.extend(k.value for k in c.keywords)
-    for n in assigns:  # self.x = <module parameter object passed in>
-        if any(chain(t) and chain(t).startswith("self.") for t in n.targets) and isinstance(n.value, ast.Name) and n.value.id.endswith("prior"):
-            sinks.append(n.value)
+    for n in assigns:  # self.x = <local>: a module object passed in as parameter, or a local bound to a freshly built sub-module
+        if any(chain(t) and chain(t).startswith("self.") for t in n.targets) and isinstance(n.value, ast.Name):
+            v = n.value.id
+            is_module_obj = any(isinstance(c, ast.Call) and chain(c.func) == "isinstance" and len(c.args) == 2 and src(c.args[0]) == v and src(c.args[1]).split(".")[-1] in ("Prior", "Module", "Kernel", "Mean", "Interval")
+                                for c in calls_in(init.node))
+            if v in init.params and (v.endswith("prior") or is_module_obj):
+                sinks.append(n.value)
+            for d in assigns:
+                if any(isinstance(t, ast.Name) and t.id == v for t in d.targets) and isinstance(d.value, ast.Call):
+                    r = idx.resolve_expr(init.module, d.value.func)
+                    if isinstance(r, ClassInfo) and (r.is_subclass_of("Prior") or r.is_subclass_of("Module")):
+                        sinks.extend(d.value.args)
+                        sinks.extend(k.value for k in d.value.keywords)
     for p in params:
         derived = {p}
         changed = True
